@@ -1,6 +1,7 @@
 package main
 
 import (
+	"os"
 	"fmt"
 	"go/types"
 	"sort"
@@ -32,7 +33,7 @@ var mapRangeExceptions = map[string]string{
 	"(*store/iavl.MutableTree).LoadVersion":        "arg-max over the distinct version numbers",
 	"(*store/iavl.MutableTree).LazyLoadVersion":    "arg-max over the distinct version numbers",
 	"(*store/iavl.MutableTree).LoadVersionForOverwriting": "deletes the entries above the target version: a set operation",
-	"(*store/iavl.MutableTree).AvailableVersions":  "collects then sorts",
+	"(*store/iavl.MutableTree).AvailableVersions":  "sorted: collects then sorts",
 	"(*store/iavl.nodeDB).DeleteVersionsFrom":      "existence check / set deletion",
 	"codec.MapToSlice":                             "its only consensus caller (CleanUpgradeFeatureSlice) sorts the result",
 	"codec.SliceToExistingMap":                     "fills a map",
@@ -43,9 +44,9 @@ var mapRangeExceptions = map[string]string{
 	"(types.ABCIMessageLogs).String":               "log text only",
 	"types.CompareStringMaps[uint32]":              "set comparison: result independent of order",
 	"(x/nodes/types.MsgStake).CheckRewardDelegators": "delegates to NormalizeRewardDelegators",
-	"x/nodes/types.NormalizeRewardDelegators":      "collects the keys and sorts them before iterating",
+	"x/nodes/types.NormalizeRewardDelegators":      "sorted: collects the keys and sorts them before iterating",
 	"(x/nodes/keeper.Keeper).getPrevStatePowerMap": "fills a map",
-	"x/nodes/keeper.sortNoLongerStakedValidators":  "collects then sorts",
+	"x/nodes/keeper.sortNoLongerStakedValidators":  "sorted: collects then sorts",
 	"(x/gov/types.ACL).Validate":                   "all-of check over distinct keys; error text only depends on order",
 	"(x/gov/types.ACL).String":                     "query/log text",
 	"(x/gov/keeper.Keeper).GetAllParamNameValue":   "query helper filling a map",
@@ -98,8 +99,28 @@ func runC12(c *Ctx) []Obligation {
 		switch {
 		case mr.Class != "":
 			ob.Desc += " [auto: " + mr.Class + "]"
+		case strings.HasPrefix(mapRangeExceptions[name], "sorted:"):
+			// the reason given is a sort: it is checked, not believed
+			ob.Desc += " [table, checked: " + mapRangeExceptions[name] + "]"
+			if why := collectedSlicesAreSorted(mr.Range); why != "" {
+				ob.fail(c.A.Pos(mr.Range.Pos()), "the table entry for %s says the collected keys are sorted before use, but %s: the iteration order of the map reaches the callers", name, why)
+			}
 		case mapRangeExceptions[name] != "":
 			ob.Desc += " [table: " + mapRangeExceptions[name] + "]"
+			// the reason was confirmed by reading the loop as it was: what the body may do with the
+			// iteration order (its sinks) is frozen with it, and anything new is reported
+			acc := map[string]bool{}
+			for _, s := range mapRangeAcceptedSinks[construct] {
+				acc[s] = true
+			}
+			if os.Getenv("VCHECK_DUMP_SINKS") != "" {
+				fmt.Fprintf(os.Stderr, "SINKS\t%q: {%s},\n", construct, quoteJoin(uniq(mr.Sinks)))
+			}
+			for _, s := range uniq(mr.Sinks) {
+				if !acc[s] {
+					ob.fail(c.A.Pos(mr.Range.Pos()), "the loop is in the exception table (%s), but its body now also does [%s], which was not there when the exception was confirmed: the iteration order may reach it", mapRangeExceptions[name], s)
+				}
+			}
 		default:
 			path := pathTo(reach, mr.Fn)
 			ob.Path = path
@@ -273,4 +294,12 @@ func tail(s []string, n int) []string {
 		return s
 	}
 	return s[len(s)-n:]
+}
+
+func quoteJoin(ss []string) string {
+	var q []string
+	for _, s := range ss {
+		q = append(q, fmt.Sprintf("%q", s))
+	}
+	return strings.Join(q, ", ")
 }
